@@ -1136,7 +1136,8 @@ class PDFCIDFont(PDFFont):
             if ttf:
                 try:
                     self.unicode_map = ttf.create_unicode_map()
-                except TrueTypeFont.CMapNotFound:
+                except (TrueTypeFont.CMapNotFound, struct.error):
+                    # no usable cmap table, or one that is cut short
                     pass
         else:
             try:
